@@ -1,6 +1,7 @@
 // C07 — shared oracle: feed one de-framed octet string to the receiver, compare verdict / accesses / reply with the reference.
 #pragma once
 #include "props/regp.hpp"
+#include <memory>
 
 namespace c07 {
 using namespace rx;
@@ -8,7 +9,8 @@ using namespace rx;
 struct Outcome { std::string key, msg; rp::Verdict ref; bool collision = false; };
 
 // raw: de-framed octets; guaranteed: the caller knows this is a corruption that the checksums/size rule must catch
-// mode 0: the frame fits into the receive block; 1: the block is one octet too small for it; 2: the block allocation fails
+// mode 0: the frame fits into the receive block; 1: the block is one octet too small for it; 2: the block allocation fails;
+// 3: as 2, and while the frame is coming in the source driver serves a second instance (whose allocation fails too) with an intact request
 inline Outcome judge(bool serial, bool mem16, const Bytes &raw, bool guaranteed, size_t slack = 64, int mode = 0) {
     Outcome o;
     rp::Frame ref;
@@ -16,10 +18,20 @@ inline Outcome judge(bool serial, bool mem16, const Bytes &raw, bool guaranteed,
     size_t block = frame_struct_size() + raw.size() + slack;
     if (mode == 1) block = frame_struct_size() + raw.size() - 1;
     Session S(serial, mem16, block, true, true, rp::on_wire(serial, raw));
-    if (mode == 2) S.led.failmask = 1;
+    if (mode >= 2) S.led.failmask = 1;
     be().reset();
+    std::unique_ptr<Session> N; Bytes nout; bool nested = false;
+    if (mode == 3) {
+        rp::Frame other = rp::make_request(true, true, mem16, 0x0022, 0x00020000u, 1, Bytes(mem16 ? 2 : 1, 0x5a));
+        N.reset(new Session(serial, mem16, frame_struct_size() + 64, true, true, rp::on_wire(serial, rp::encode(other))));
+        N->led.failmask = 1;
+        size_t wire = S.src.data.size();
+        S.src.pos_hook_at = wire > 2 ? 1 + vp::fnv(raw.data(), raw.size(), 3) % (wire - 1) : 1;
+        S.src.pos_hook = [&]() { nested = true; RPMaybeFrame nmf; memset(&nmf, 0, sizeof nmf); (void)regp_recv(&N->p, &nmf); (void)regp_process(&N->p, &nmf); if (nmf.frame) regp_free(&N->p, nmf.frame); nout = N->take_output(); };
+    }
     RPMaybeFrame mf; memset(&mf, 0, sizeof mf);
     int rr = regp_recv(&S.p, &mf);
+    S.src.pos_hook = nullptr;
     int pr = regp_process(&S.p, &mf);
     (void)rr; (void)pr;
     Bytes out = S.take_output();
@@ -39,7 +51,13 @@ inline Outcome judge(bool serial, bool mem16, const Bytes &raw, bool guaranteed,
         // damaged header is mirrored in a busy / overflow response)
         if (calls) return fail("not-stored:executed", "a frame that could not be stored reached the memory back-end");
         if (acked) return fail("not-stored:acknowledged", "a frame that could not be stored was acknowledged");
-        bool parseable = mode == 2 || raw.size() - 1 >= 16;
+        if (nested) {
+            // the other port's request was intact: whatever is answered there is answered to that request
+            std::vector<Bytes> nf; if (!rp::split_wire(serial, nout, nf)) return fail("nested:reply-not-framed", "the second instance's reply is not well-formed");
+            for (auto &f : nf) { rp::Frame d; rp::decode(f, d); if (d.is_response() && (d.meta == rp::C_ACK || d.seq != 0x0022 || d.addr != 0x00020000u)) return fail("nested:reply-mixes-frames", vp::fmt("the second instance answered its intact request (seq 0x22, address 0x20000) with %s", rp::show(d).c_str())); if (d.type == rp::META) return fail("nested:intact-request-reported-as-header-fault", "the second instance answered its intact request with a meta message"); }
+            if (N->led.outstanding() || N->led.double_free) return fail("ledger", "allocation ledger of the second instance unbalanced");
+        }
+        bool parseable = mode >= 2 || raw.size() - 1 >= 16;
         if (parseable && o.ref == rp::V_BAD_HDCRC && !(replies.size() == 1 && replies[0].type == rp::META && replies[0].meta == 2)) return fail("not-stored:bad-header-checksum-not-reported", vp::fmt("mode %d: header checksum does not match but the reply is not the header-checksum meta message", mode));
         if (parseable && o.ref == rp::V_BAD_HEADER && raw.size() >= 12 && !(replies.size() == 1 && replies[0].type == rp::META && replies[0].meta == 1)) return fail("not-stored:bad-header-encoding-not-reported", vp::fmt("mode %d: header does not parse but the reply is not the header-encoding meta message", mode));
         return o;
